@@ -438,7 +438,7 @@ def r6_cross_chunk_scan(ctx):
                 first = [g.nodes[b] for b, l in g.succ[loop.id] if l == "iter"]
                 bad = g.path(first, [loop], blocked=lambda x: x in ins, start_after=False)
                 ctx.ob(fi.where, f"{c.name}.contains_complete_entry: the state `{name}` carried from chunk to chunk is updated for every chunk (no chunk is skipped)",
-                       bad is None, CFG.show(bad) if bad else "", key=f"C01-R6|{c.name}|{name}")
+                       bad is None, CFG.show(bad) if bad else "", key=f"C01-R6|{c.name}|{name}", definite=True)
                 uses = [x for x in g.nodes if x.kind == "test" and name in {y.id for y in ast.walk(x.ast) if isinstance(y, ast.Name)} and inside(x)]
                 for t in uses:
                     skip = g.path(first, ins, blocked=lambda x: x.id == t.id or (x.kind == "stmt" and isinstance(x.ast, ast.Return)), start_after=False)
